@@ -13,7 +13,7 @@
 (***************************************************************************)
 EXTENDS Integers, Sequences, FiniteSets, TLC
 
-CONSTANTS M, BitmapW, GetW, LateT, NackHorizon, Fixed_F20,
+CONSTANTS M, BitmapW, GetW, LateT, NackHorizon, Fixed_F20, Fixed_F26,
           Caps,        \* capacities explored
           Ids,         \* packet content ids
           Offs,        \* arrival offsets from the highest position (first arrival: 1)
